@@ -9,7 +9,7 @@ QUICK_N = 3000
 THOROUGH_N = 40000
 SHARD = 300
 COQ_PRELUDE = "From Coq Require Import NArith ZArith.\nFrom MV Require Import Model.Url.\n"
-RULE = ("55% edit histories (1-5 of url/host/host-as-bytes/port assignments) on a real Request built from generated "
+RULE = ("9% scheme-flip histories (url assignments that keep host and port but change the scheme, default and non-default ports, Host header / authority eliding or showing the port, HTTP/1 and HTTP/2, names, IPv6, IDN); 46% edit histories (1-5 of url/host/host-as-bytes/port assignments) on a real Request built from generated "
         "scheme/host/port/path/authority/headers (no, one, several, differently-cased Host fields; HTTP/1 and HTTP/2; CONNECT), "
         "observed after every edit (data fields, url, host_header, parse_authority of it, and a re-assignment of the url read back); "
         "URLs are composed from token dictionaries for scheme, userinfo, host (names, IPv4, generated IPv6 literals with zones and "
@@ -239,6 +239,49 @@ def g_hist(rng):
     return {"k": "hist", "init": init, "ops": ops}
 
 
+def g_flip(rng):
+    """url assignments that keep host and port but change the scheme (and back), on requests whose Host header /
+    authority elides or shows the port; HTTP/1 and HTTP/2; names, IPv6 literals, one IDN"""
+    r = rng.random()
+    if r < 0.45:
+        host = rng.choice(NAMES[:13])[1]; utext = host
+    elif r < 0.9:
+        addr, pc, zone = g_ipv6(rng).partition("%")
+        host = addr.lower() + pc + zone; utext = "[" + host + "]"
+    else:
+        utext, host = IDN_ACE[0]
+    s0 = rng.choice(["http", "https"])
+    port = rng.choice([DEFAULT[s0], DEFAULT[s0], DEFAULT["https" if s0 == "http" else "http"], 8080, 1, 65535])
+    shown = lambda sch: ("[" + host + "]" if ":" in host else host) + ("" if DEFAULT[sch] == port else ":%d" % port)
+    h2 = rng.chance(0.5)
+    hdrs = rng.choice([[(b"Host", s2b(shown(s0)))], [(b"host", s2b(shown(s0))), (b"Accept", b"*/*")], []] if not h2 else
+                      [[], [], [(b"Host", s2b(shown(s0)))]])
+    try:
+        auth = shown(s0).encode("idna")
+    except UnicodeError:
+        auth = s2b(shown(s0))
+    if not (h2 or rng.chance(0.3)):
+        auth = b""
+    init = {"scheme": hx(s0.encode()), "host": hx(s2b(host)), "host_valid": True, "port": port, "path": hx(b"/p"),
+            "authority": hx(auth), "headers": [[hx(k), hx(v)] for k, v in hdrs], "h2": h2, "method": "GET"}
+    ops, cur = [], s0
+    for _ in range(rng.randint(1, 3)):
+        k = rng.weighted([(6, "flip"), (1, "same"), (1, "port")])
+        if k == "port":
+            port = rng.choice([80, 443, 8080])
+            ops.append({"op": "port", "v": port})
+            continue
+        if k == "flip":
+            cur = "https" if cur == "http" else "http"
+        explicit = DEFAULT[cur] != port or rng.chance(0.4)
+        path = rng.choice(["/p", "/", "/a;b?c#d"])
+        u = cur + "://" + utext + (":%d" % port if explicit else "") + path
+        ops.append({"op": "url", "v": hx(s2b(u)),
+                    "intent": {"scheme": cur, "host": hx(s2b(host)), "port": port, "path": hx(s2b(path)),
+                               "unicode_host": False, "port_zero": False}})
+    return {"k": "hist", "init": init, "ops": ops}
+
+
 def g_authority(rng):
     r = rng.random()
     if r < 0.3:
@@ -264,8 +307,10 @@ def gen(rng, n, tier):
     out = []
     for _ in range(n):
         r = rng.random()
-        if r < 0.55:
+        if r < 0.46:
             out.append(g_hist(rng))
+        elif r < 0.55:
+            out.append(g_flip(rng))
         elif r < 0.67:
             out.append({"k": "parse", "u": hx(s2b(g_url(rng)[0]))})
         elif r < 0.75:
